@@ -59,6 +59,10 @@ def gen_case(rng):
             exp.append(("label", run))
         else:
             rows.append(gen.random_grid(rng, rng.range(1, 16), 1, gen.mixed_alphabet(rng) + "<>&'", 50))
+    if rng.chance(1, 5):
+        # a {tag} inside a shape goes into a class attribute: every character of it has to be attribute-safe
+        tag = "{" + rng.choice(["a", "b1", "w"]) + "".join(hostile_char(rng) for _ in range(rng.range(1, 3))).replace("\n", "").replace("\r", "").replace('"', "") + "}"
+        rows = gen.box(len(tag) + 4, 1, corners=rng.choice(["++++", "..''"]), inner=[" " + tag]).split("\n") + rows
     text = "\n".join(rows)
     if rng.chance(1, 3):
         name = rng.choice(["a", "b_1", "Zq"])
@@ -82,6 +86,7 @@ def all_texts(root):
 
 class Check(PropertyCheck):
     id = "C02"
+    thorough_mult = 3
     lean_modules = ["Svgbob.Properties.C02"]
     assumptions = [
         "model of text escaping, node building and sauron's serializer hand-written; tied byte-for-byte to the "
